@@ -29,3 +29,50 @@ pub proof fn lemma_is_name_skip(s: Seq<u8>)
     requires is_name(s)
     ensures skip_walk(s, 0) == Some(s.len() as int)
 { lemma_plain_skip(s, 0, 0); }
+
+// a clean pointer-free complete name
+pub open spec fn is_cname(s: Seq<u8>) -> bool { pcs_walk(s, 0, 0) == Some(s.len() as int) }
+pub proof fn lemma_cname_name(s: Seq<u8>)
+    requires is_cname(s)
+    ensures is_name(s), pcs_end(s, 0) == Some(s.len() as int)
+{ lemma_pcs_plain(s, 0, 0); }
+// C07: the rewritten name (labels kept up to the boundary `off`, then the target) is again a clean name
+pub proof fn lemma_replace_pcs(name: Seq<u8>, target: Seq<u8>, cur: int, off: int)
+    requires pcs_walk(name, cur, cur) == Some(name.len() as int), reach(name, cur, off), 0 <= cur <= off, is_cname(target), off + target.len() <= 255,
+    ensures pcs_walk(name.subrange(0, off) + target, cur, cur) == Some(off + target.len())
+    decreases name.len() - cur
+{
+    let w = name.subrange(0, off) + target;
+    lemma_pcs_bounds(name, cur, cur);
+    lemma_reach_le(name, cur, off);
+    if cur == off {
+        lemma_pcs_nlen_up(target, 0, 0, off);
+        assert forall|i: int| 0 <= i < target.len() implies target[i] == w[i - 0 + off] by { }
+        lemma_pcs_shift(target, 0, w, off, off);
+    } else {
+        let b = name[cur];
+        lemma_reach_le(name, cur + b + 1, off);
+        assert(w[cur] == b);
+        assert(!has_bad(w, cur + 1, cur + 1 + b)) by {
+            if has_bad(w, cur + 1, cur + 1 + b) { let i = choose|i: int| cur + 1 <= i < cur + 1 + b && bad_char(#[trigger] w[i]); assert(w[i] == name[i]); assert(bad_char(name[i])); }
+        }
+        lemma_pcs_bounds(name, cur + b + 1, cur + b + 1);
+        lemma_replace_pcs(name, target, cur + b + 1, off);
+    }
+}
+// reach only hops forward
+pub proof fn lemma_reach_le(s: Seq<u8>, cur: int, off: int)
+    requires reach(s, cur, off)
+    ensures cur <= off < s.len()
+    decreases s.len() - cur
+{ if cur != off { lemma_reach_le(s, cur + s[cur] + 1, off); } }
+// a clean name stays clean when more length has already been accumulated, as long as the total fits
+pub proof fn lemma_pcs_nlen_up(p: Seq<u8>, off: int, nlen: int, n2: int)
+    requires pcs_walk(p, off, nlen) matches Some(e) && nlen <= n2 && n2 + (e - off) <= 255
+    ensures pcs_walk(p, off, n2) == pcs_walk(p, off, nlen)
+    decreases p.len() - off
+{
+    let b = p[off];
+    lemma_pcs_bounds(p, off, nlen);
+    if b != 0 { lemma_pcs_bounds(p, off + b + 1, nlen + b + 1); lemma_pcs_nlen_up(p, off + b + 1, nlen + b + 1, n2 + b + 1); }
+}
